@@ -729,7 +729,10 @@ def expected_reexports(p: Dict[str, Any], multi: bool = False) -> List[Dict[str,
             else:
                 names = O["all"] if O["hasAll"] else [n for n in defs if not n.startswith("_")]
                 pairs = [(n, n) for n in names]
+            own = top_level_defs(p, ri)
             for orig, as_ in pairs:
+                if as_ in own:
+                    continue          # the re-exporter rebinds the name to a definition of its own afterwards
                 if as_ in R["all"] and orig in defs and not (O["hasAll"] and orig in O["all"]):
                     kind, pc = defs[orig]
                     found.append({"site": [oi, pc], "kind": kind, "old": f"{tq}.{orig}",
@@ -743,7 +746,43 @@ def expected_reexports(p: Dict[str, Any], multi: bool = False) -> List[Dict[str,
                                       "members": [(n, pc2) for n, (k2, pc2) in top_level_defs(p, si).items()], "member_origin": si})
     by_site: Dict[Tuple[int, int], List[Dict[str, Any]]] = {}
     for f in found:
-        by_site.setdefault(tuple(f["site"]), []).append(f)
+        lst = by_site.setdefault(tuple(f["site"]), [])
+        if not any(g["rex"] == f["rex"] and g["new"] == f["new"] for g in lst):     # the same module importing it twice is one re-exporter
+            lst.append(f)
     if multi:
         return [v[0] for v in by_site.values() if len(v) > 1]
     return [v[0] for v in by_site.values() if len(v) == 1]
+
+
+def static_base_sites(p: Dict[str, Any]) -> Dict[str, List[Optional[List[int]]]]:
+    """What each base written in a module-level class statement denotes, read off the source without running it:
+    a single name bound earlier in the same module by `from M import orig [as name]` with M a project module that
+    defines orig, or defined earlier in the same module.  {json([mi, pc of class]): [site or None per base]}"""
+    idx = module_index_by_qname(p)
+    out: Dict[str, List[Optional[List[int]]]] = {}
+    for mi, m in enumerate(p["mods"], 1):
+        if m["broken"]:
+            continue
+        bound: Dict[str, Optional[List[int]]] = {}
+        depth = 0
+        for pc, op in enumerate(m["ops"], 1):
+            k = op["k"]
+            if k == "endclass":
+                depth -= 1
+                continue
+            if depth == 0:
+                if k == "from" and not op.get("try"):
+                    tq = resolve_import_target(p, mi, op["lvl"], op["m"])
+                    oi = idx.get(tq or "")
+                    d = top_level_defs(p, oi).get(op["orig"]) if oi and not p["mods"][oi - 1]["broken"] else None
+                    bound[op["as"]] = [oi, d[1]] if d else None
+                elif k in ("star", "import", "alias"):
+                    bound.clear() if k == "star" else bound.pop(op.get("as") or op.get("n") or op["m"][0], None)
+                elif k in ("def", "var"):
+                    bound[op["n"]] = [mi, pc]
+                elif k == "class":
+                    out[json.dumps([mi, pc])] = [bound.get(b[0]) if len(b) == 1 else None for b in op["bases"]]
+                    bound[op["n"]] = [mi, pc]
+            if k == "class":
+                depth += 1
+    return out
